@@ -202,7 +202,7 @@ def u_grid_flat_number(U):
                 continue
             U.post('length-is-int(n)', p, Z(I.shape[0]) == cnt)
             U.post('element-t-is-t', p, z3.Implies(z3.And(0 <= tt, tt < cnt), I.t[tt] == tt))
-            U.canary('canary-first-element-is-1', p, I.t[0] == 1)
+            U.canary('canary-empty-grid', p, Z(I.shape[0]) == 0, qf=True)
 
 
 # ----------------------------------------------------------------------------------------------
@@ -867,7 +867,7 @@ def u_range(U):
         U.post('returns-a-matrix', p, z3.BoolVal(ok))
         if ok:
             U.post('integer-column-of-shape-(n,1)', p, z3.And(z3.BoolVal(v.dtype == 'i'), Z(v.shape[0]) == n, Z(v.shape[1]) == 1))
-            U.canary('canary-empty', p, Z(v.shape[0]) == 0)
+            U.canary('canary-empty', p, Z(v.shape[0]) == 0, qf=True)
 
 
 def call_range(ex, st, args, kwargs, node):
